@@ -1,6 +1,6 @@
 (* Proofs/Decomp.v — C12: balanced digits, recomposition, input restored, lanes = scalar. *)
 From Coq Require Import ZArith Lia List Bool.
-From TV Require Import Base.Int32 Model.Decomp Proofs.Digits.
+From TV Require Import Base.Int32 Base.Sums Model.Decomp Proofs.Digits.
 Import ListNotations.
 Local Open Scope Z_scope.
 
